@@ -853,6 +853,20 @@ func verif_fresh(p any) bool { return true }
 // execution of the function under contract (ghost; no run-time observer).
 func verif_freshslice[T any](s []T) bool { return true }
 
+// verif_sameelems(a, b): a and b have the same length and the same elements in
+// the same order.
+func verif_sameelems[T comparable](a, b []T) bool {
+	if len(a) != len(b) {
+		return false
+	}
+	for i := range a {
+		if a[i] != b[i] {
+			return false
+		}
+	}
+	return true
+}
+
 // verif_all(f): f holds of every value of its parameter type (a specification-only
 // quantifier; it has no run-time observer).
 func verif_all[T any](f func(T) bool) bool { verif_ghostUsed = true; return true }
